@@ -102,11 +102,24 @@ def write_transform(rng, work, sim_ok, ext):
     M[:3, :3] = s * R
     M[:3, 3] = t
     form = ["npy", "txt", "json"][rng.integers(3)]
+    whole = False
+    if form != "json" and rng.random() < .3:
+        # hand-written matrices: axis swaps / quarter turns, whole-number shift and factor,
+        # stored with an integer dtype (npy) or without decimal points (txt)
+        R = gen.rotations_of_class(rng, 3, "quarter_grid")[-1]
+        t = rng.integers(-50, 51, size=3).astype(float)
+        s = float([1, 1, 2, 10, 100][rng.integers(5)]) if sim_ok else 1.0
+        M = np.eye(4)
+        M[:3, :3] = s * R
+        M[:3, 3] = t
+        whole = True
     path = os.path.join(work, "in", "tf." + form)
     if form == "npy":
-        np.save(path, M)
+        np.save(path, M.astype(np.int64) if whole else M)
+        form = "npy(int64)" if whole else form
     elif form == "txt":
-        np.savetxt(path, M)
+        np.savetxt(path, M, fmt="%d") if whole else np.savetxt(path, M)
+        form = "txt(integers)" if whole else form
     else:
         q = rm.quat_wxyz_from_rot(R)
         d = {"x": float(t[0]), "y": float(t[1]), "z": float(t[2]), "qw": float(q[0]), "qx": float(q[1]),
